@@ -44,6 +44,7 @@ func (s BStep) String() string {
 type BScenario struct {
 	Concurrency int     `json:"concurrency,omitempty"`
 	AllowPush   bool    `json:"allow_push,omitempty"` // the bridge's server is push-enabled (nothing pushes: callers see no difference)
+	GetHook     bool    `json:"get_hook,omitempty"`   // BridgeOptions.ParseGETRequest is set (GET goes to a Getter); there is still no ParseRequest hook, so everything else is gated as before
 	Salt        uint64  `json:"salt,omitempty"`
 	Pins        []Pin   `json:"pins,omitempty"`
 	NoHooks     bool    `json:"no_hooks,omitempty"`
@@ -155,7 +156,11 @@ func RunBridge(t *testing.T, sc BScenario) (h *BHistory) {
 				return tok, nil
 			}
 		})
-		b := jhttp.NewBridge(assign, &jhttp.BridgeOptions{Server: &jrpc2.ServerOptions{Concurrency: sc.Concurrency, AllowPush: sc.AllowPush}})
+		bopts := &jhttp.BridgeOptions{Server: &jrpc2.ServerOptions{Concurrency: sc.Concurrency, AllowPush: sc.AllowPush}}
+		if sc.GetHook {
+			bopts.ParseGETRequest = jhttp.ParseQuery
+		}
+		b := jhttp.NewBridge(assign, bopts)
 		settle := func() {
 			sched.Settle()
 			mu.Lock()
